@@ -42,7 +42,7 @@ type scenario struct {
 	P2     string `json:"p2"`     // commit | rollback: what the transaction manager decides if phase one returned nil
 	How    string `json:"how"`    // once | dup | retry | restart | other
 	Ver    string `json:"ver"`    // server version
-	Reuse  int    `json:"reuse"`  // 1: the pooled connection served a complete XA transaction before
+	Reuse  int    `json:"reuse"`  // 1: the pooled connection served a complete XA transaction before; 2: another global transaction uses the pool between phase one and phase two
 	Xid    string `json:"xid"`    // xid flavour: "" (plain) | dash | long | quote   (data dimension, chosen by the driver)
 }
 
@@ -342,6 +342,21 @@ func run(lab *atlab.XALab, t *trace.T, sc scenario, r rnd) (refused bool) {
 	}
 	seqAfter1 := tc.NextSeq()
 
+	// windows of the shared sequence in which another global transaction works on the same pool (reuse = 2):
+	// its statements and registrations are no part of this branch's trace
+	var windows [][2]int64
+	skipped := func(seq int64) bool {
+		for _, w := range windows {
+			if seq > w[0] && seq < w[1] {
+				return true
+			}
+		}
+		return false
+	}
+	var xid2 string
+	var bid2 int64
+	inter := false
+
 	// ---------------------------------------------------------------- phase two
 	registered := false
 	for _, rec := range lab.Coord.Log() {
@@ -353,6 +368,26 @@ func run(lab *atlab.XALab, t *trace.T, sc scenario, r rnd) (refused bool) {
 	kind := "rollback"
 	if sc.P2 == "commit" && ret == "nil" {
 		kind = "commit" // the transaction manager commits only what returned nil
+	}
+	if registered && sc.Reuse == 2 && ret == "nil" {
+		// the interloper: phase one of another global transaction on the same pool (most recently released
+		// connection first), while this branch waits for its phase two
+		w0 := tc.NextSeq()
+		xid2, bid2 = xidFor("", r), 1+r.Int63()%(1<<40)
+		curXid, curBid = xid2, bid2
+		ictx, cancel := context.WithTimeout(context.Background(), 3*time.Second)
+		ierr := tm.WithGlobalTx(ictx, &tm.GtxConfig{Name: "xab-inter", Timeout: 30 * time.Second}, func(ctx context.Context) error {
+			// a read: the interloper must not change the table the final state of this branch is judged by
+			e, p := call(ctx, lab.DB, scenario{Kind: "sel", Mode: "auto"})
+			if p != nil {
+				return fmt.Errorf("panic: %v", p)
+			}
+			return e
+		})
+		cancel()
+		inter = ierr == nil
+		curXid, curBid = xid, bid
+		windows = append(windows, [2]int64{w0, tc.NextSeq()})
 	}
 	if registered {
 		deliver := func(how string) {
@@ -386,6 +421,12 @@ func run(lab *atlab.XALab, t *trace.T, sc scenario, r rnd) (refused bool) {
 			deliver("once")
 		}
 	}
+	if inter {
+		// the interloper's own phase two (its transaction manager committed)
+		w0 := tc.NextSeq()
+		lab.Coord.BranchCommit(lab.Sess, xid2, bid2, branch.BranchTypeXA, lab.RID, nil, 8*time.Second)
+		windows = append(windows, [2]int64{w0, tc.NextSeq()})
+	}
 	seqEnd := tc.NextSeq()
 
 	// ---------------------------------------------------------------- merge the logs
@@ -393,6 +434,9 @@ func run(lab *atlab.XALab, t *trace.T, sc scenario, r rnd) (refused bool) {
 	faultClass := "none"
 	ids1, ids2 := map[string]bool{}, map[string]bool{}
 	for _, e := range lab.Srv.Journal() {
+		if skipped(e.Seq) {
+			continue
+		}
 		if _, ok := connIdx[e.Conn]; !ok {
 			connIdx[e.Conn] = len(connIdx) + 1
 		}
@@ -455,6 +499,9 @@ func run(lab *atlab.XALab, t *trace.T, sc scenario, r rnd) (refused bool) {
 		}
 	}
 	for _, rec := range lab.Coord.Log() {
+		if skipped(rec.Seq) {
+			continue
+		}
 		switch b := rec.Body.(type) {
 		case message.BranchRegisterRequest:
 			evs = append(evs, obs{rec.Seq, "RegReq", []interface{}{"xa", b.BranchType == branch.BranchTypeXA && b.Xid == xid}})
